@@ -60,34 +60,36 @@ def lua_loader(ctx: "Wtp", modname: str) -> Optional[str]:
     # print("LUA_LOADER IN PYTHON:", modname)
     assert isinstance(modname, str)
     modname = modname.strip()
-    data = ctx.get_page_body(modname, ctx.NAMESPACE_DATA["Module"]["id"])
-    if data is None:
-        # Try to load it from a file
-        path = modname
-        path = re.sub(r"[\0-\037]", "", path)  # Remove control chars, e.g. \n
-        path = path.replace(":", "/")
-        path = path.replace(" ", "_")
-        path = re.sub(r"//+", "/", path)  # Replace multiple slashes by one
-        path = re.sub(r"\.\.+", ".", path)  # Replace .. and longer by .
-        path = re.sub(r"^/+", "", path)  # Remove initial slashes
-        path += ".lua"
+    # The built-in files come first: the sandbox set-up itself is loaded
+    # through this function ("_sandbox_phase2", "mw" and the libraries they
+    # require, some of it while the unwrapped Python helpers are in reach),
+    # so a page such as "Module:mw" must not be able to stand in for them.
+    # Names a wiki is known to override ("string", "debug") are listed as
+    # exceptions in BUILTIN_LUA_SEARCH_PATHS and still come from the pages.
+    path = modname
+    path = re.sub(r"[\0-\037]", "", path)  # Remove control chars, e.g. \n
+    path = path.replace(":", "/")
+    path = path.replace(" ", "_")
+    path = re.sub(r"//+", "/", path)  # Replace multiple slashes by one
+    path = re.sub(r"\.\.+", ".", path)  # Replace .. and longer by .
+    path = re.sub(r"^/+", "", path)  # Remove initial slashes
+    path += ".lua"
 
-        for prefix, exceptions in BUILTIN_LUA_SEARCH_PATHS:
-            if modname in exceptions:
-                continue
+    for prefix, exceptions in BUILTIN_LUA_SEARCH_PATHS:
+        if modname in exceptions:
+            continue
 
-            file_path = LUA_DIR / prefix / path
-            try:
-                found = file_path.is_file()
-            except OSError:
-                # e.g. a module name longer than the file system allows
-                found = False
-            if found:
-                with file_path.open("r", encoding="utf-8") as f:
-                    data = f.read()
-                break
+        file_path = LUA_DIR / prefix / path
+        try:
+            found = file_path.is_file()
+        except OSError:
+            # e.g. a module name longer than the file system allows
+            found = False
+        if found:
+            with file_path.open("r", encoding="utf-8") as f:
+                return f.read()
 
-    return data
+    return ctx.get_page_body(modname, ctx.NAMESPACE_DATA["Module"]["id"])
 
 
 # the last pattern is for HTML named entity hex numbers
